@@ -169,6 +169,7 @@ class Inliner:
         self.new_methods = {}   # (class, name) -> (FunctionDef, kind)   kind: 'method' | 'static'
         self.new_consts = {}    # name -> expression AST
         self.new_cconsts = {}   # (class, name) -> expression AST
+        self.classes = {n.name: n for n in tree.body if isinstance(n, ast.ClassDef)}
 
     # ------------------------------------------------------------------ discovery
     def restore_forms(self):
@@ -298,23 +299,35 @@ class Inliner:
         if isinstance(f, ast.Name) and f.id in self.new_funcs:
             return self.new_funcs[f.id], None, f.id
         if isinstance(f, ast.Attribute) and isinstance(f.value, ast.Name) and cls is not None:
-            if f.value.id == 'self' and (cls, f.attr) in self.new_methods:
-                fd, kind = self.new_methods[(cls, f.attr)]
-                return fd, (ast.Name(id='self', ctx=ast.Load()) if kind == 'method' else None), '%s.%s' % (cls, f.attr)
+            if f.value.id == 'self':
+                # method resolution along the module-local single-inheritance chain
+                k_ = cls
+                seen = set()
+                while k_ is not None and k_ not in seen:
+                    seen.add(k_)
+                    if (k_, f.attr) in self.new_methods:
+                        fd, kind = self.new_methods[(k_, f.attr)]
+                        return fd, (ast.Name(id='self', ctx=ast.Load()) if kind == 'method' else None), '%s.%s' % (k_, f.attr)
+                    cdef = self.classes.get(k_)
+                    if cdef is None or any(isinstance(x, ast.FunctionDef) and x.name == f.attr for x in cdef.body):
+                        break
+                    k_ = cdef.bases[0].id if (len(cdef.bases) == 1 and isinstance(cdef.bases[0], ast.Name)) else None
             if f.value.id == cls and (cls, f.attr) in self.new_methods and self.new_methods[(cls, f.attr)][1] == 'static':
                 return self.new_methods[(cls, f.attr)][0], None, '%s.%s' % (cls, f.attr)
         return None
 
-    def expand(self, call, fdef, recv, caller_locals, label):
-        """-> (prelude statements, result expression)"""
+    def _bind(self, call, fdef, recv, caller_locals, generator=False):
+        """-> (k, prelude statements, renamer, body)  parameters bound, locals renamed apart"""
         a = fdef.args
         if a.vararg or a.kwarg:
             raise NotInlinable('*args/**kwargs')
         if any(isinstance(x, ast.Starred) for x in call.args) or any(k.arg is None for k in call.keywords):
             raise NotInlinable('star arguments at the call')
         body = _docless(list(fdef.body))
-        if _contains(body, (ast.Yield, ast.YieldFrom, ast.Global, ast.Nonlocal, ast.FunctionDef, ast.ClassDef, ast.Await)):
-            raise NotInlinable('generator / global / nested definition')
+        if _contains(body, (ast.Global, ast.Nonlocal, ast.FunctionDef, ast.ClassDef, ast.Await)):
+            raise NotInlinable('global / nested definition')
+        if _contains(body, (ast.Yield, ast.YieldFrom)) != generator:
+            raise NotInlinable('generator' if not generator else 'not a generator')
         for n in ast.walk(ast.Module(body=body, type_ignores=[])):
             if isinstance(n, ast.Call) and isinstance(n.func, ast.Name) and n.func.id in ('super', 'locals', 'vars', 'eval', 'exec'):
                 raise NotInlinable('uses %s()' % n.func.id)
@@ -377,7 +390,11 @@ class Inliner:
                 tmp = '_inl%d_%s' % (k, p)
                 prelude.append(ast.Assign(targets=[ast.Name(id=tmp, ctx=ast.Store())], value=copy.deepcopy(e)))
                 exprs[p] = ast.Name(id=tmp, ctx=ast.Load())
-        body = copy.deepcopy(body)
+        return k, prelude, _Rename(names, exprs), copy.deepcopy(body)
+
+    def expand(self, call, fdef, recv, caller_locals, label):
+        """-> (prelude statements, result expression)"""
+        k, prelude, rn, body = self._bind(call, fdef, recv, caller_locals)
         ret = '_inl%d_ret' % k
         nret = sum(1 for s in body for n in ast.walk(s) if isinstance(n, ast.Return))
         if nret == 0:
@@ -390,13 +407,101 @@ class Inliner:
             if not allret:
                 stmts = [ast.Assign(targets=[ast.Name(id=ret, ctx=ast.Store())], value=ast.Constant(value=None))] + stmts
             result = ast.Name(id=ret, ctx=ast.Load())
-        rn = _Rename(names, exprs)
         stmts = [rn.visit(s) for s in stmts]
         result = rn.visit(result) if not (isinstance(result, ast.Name) and result.id == ret) else result
         for s in prelude + stmts:
             ast.copy_location(s, call)
             ast.fix_missing_locations(s)
         return prelude + stmts, result
+
+    # ------------------------------------------------------------------ generator helpers
+    def _gen_body(self, call, fdef, recv, caller_locals, on_yield):
+        """body of a generator helper with every `yield e` statement replaced by on_yield(e) (a list of statements)"""
+        k, prelude, rn, body = self._bind(call, fdef, recv, caller_locals, generator=True)
+        for n in ast.walk(ast.Module(body=body, type_ignores=[])):
+            if isinstance(n, ast.YieldFrom):
+                raise NotInlinable('yield from inside the helper')
+            if isinstance(n, ast.Return):
+                raise NotInlinable('return inside a generator helper')
+        # every Yield must be a statement of its own
+        stmt_yields = sum(1 for n in ast.walk(ast.Module(body=body, type_ignores=[]))
+                          if isinstance(n, ast.Expr) and isinstance(n.value, ast.Yield))
+        all_yields = sum(1 for n in ast.walk(ast.Module(body=body, type_ignores=[])) if isinstance(n, ast.Yield))
+        if stmt_yields != all_yields or not all_yields:
+            raise NotInlinable('yield used as an expression')
+        body = [rn.visit(st) for st in body]
+
+        def rewrite(stmts):
+            out = []
+            for st in stmts:
+                if isinstance(st, ast.Expr) and isinstance(st.value, ast.Yield):
+                    v = st.value.value if st.value.value is not None else ast.Constant(value=None)
+                    out.extend(on_yield(v))
+                    continue
+                for fld in ('body', 'orelse', 'finalbody'):
+                    b_ = getattr(st, fld, None)
+                    if isinstance(b_, list) and b_ and isinstance(b_[0], ast.stmt):
+                        setattr(st, fld, rewrite(b_))
+                for h in getattr(st, 'handlers', []) or []:
+                    h.body = rewrite(h.body)
+                out.append(st)
+            return out
+        res = prelude + rewrite(body)
+        for st in res:
+            ast.copy_location(st, call)
+            ast.fix_missing_locations(st)
+        return k, res
+
+    def _try_generator_forms(self, st, cls, caller_locals, label):
+        """statement forms that consume a new generator helper completely; returns replacement statements or None"""
+        # yield from G(...)
+        if isinstance(st, ast.Expr) and isinstance(st.value, ast.YieldFrom) and isinstance(st.value.value, ast.Call):
+            c = self._callee_for(st.value.value, cls)
+            if c is not None and _contains(c[0], (ast.Yield, ast.YieldFrom)):
+                k, res = self._gen_body(st.value.value, c[0], c[1], caller_locals,
+                                        lambda v: [ast.Expr(value=ast.Yield(value=v))])
+                self.report.append('%s (generator) into %s' % (c[2], label))
+                return res
+        # for x in G(...): body
+        if isinstance(st, ast.For) and isinstance(st.iter, ast.Call) and not st.orelse:
+            c = self._callee_for(st.iter, cls)
+            if c is not None and _contains(c[0], (ast.Yield, ast.YieldFrom)):
+                for n in st.body:
+                    for w in ast.walk(n):
+                        if isinstance(w, (ast.Break, ast.Continue)):
+                            raise NotInlinable('break/continue in a loop over a generator helper')
+                k, res = self._gen_body(st.iter, c[0], c[1], caller_locals,
+                                        lambda v: [ast.Assign(targets=[copy.deepcopy(st.target)], value=v)] + copy.deepcopy(st.body))
+                self.report.append('%s (generator) into %s' % (c[2], label))
+                return res
+        return None
+
+    def _collect_generator(self, st, cls, caller_locals, label, skip):
+        """X.join(G(..)) / list(G(..)) / tuple / bytes / sorted / sum: collect the yielded values in a list first"""
+        for n in ast.walk(st):
+            if isinstance(n, ast.Call) and len(n.args) == 1 and not n.keywords and isinstance(n.args[0], ast.Call) and id(n.args[0]) not in skip:
+                f = n.func
+                ok = (isinstance(f, ast.Name) and f.id in ('list', 'tuple', 'bytes', 'sorted', 'sum', 'bytearray', 'set', 'max', 'min', 'any', 'all')) \
+                    or (isinstance(f, ast.Attribute) and f.attr == 'join')
+                c = self._callee_for(n.args[0], cls) if ok else None
+                if c is not None and _contains(c[0], (ast.Yield, ast.YieldFrom)):
+                    self.counter += 1
+                    acc = '_inl%d_acc' % self.counter
+                    try:
+                        k, res = self._gen_body(n.args[0], c[0], c[1], caller_locals,
+                                                lambda v: [ast.Expr(value=ast.Call(func=ast.Attribute(value=ast.Name(id=acc, ctx=ast.Load()), attr='append', ctx=ast.Load()),
+                                                                                     args=[v], keywords=[]))])
+                    except NotInlinable as ex:
+                        skip.add(id(n.args[0]))
+                        self.failed.append((c[2], label, str(ex)))
+                        continue
+                    init = ast.Assign(targets=[ast.Name(id=acc, ctx=ast.Store())], value=ast.List(elts=[], ctx=ast.Load()))
+                    ast.copy_location(init, st)
+                    ast.fix_missing_locations(init)
+                    new = self._replace(st, n.args[0], ast.Name(id=acc, ctx=ast.Load()))
+                    self.report.append('%s (generator) into %s' % (c[2], label))
+                    return [init] + res + [new]
+        return None
 
     # ------------------------------------------------------------------ statements
     def _find_call(self, stmt, cls, skip):
@@ -468,6 +573,17 @@ class Inliner:
                 out.append(s)
                 continue
             skip = set()
+            if not isinstance(s, (ast.While,)) :
+                try:
+                    g = self._try_generator_forms(s, cls, caller_locals, label)
+                except NotInlinable as ex:
+                    g = None
+                    self.failed.append(('generator helper', label, str(ex)))
+                if g is None and not isinstance(s, (ast.If, ast.For, ast.Try, ast.With)):
+                    g = self._collect_generator(s, cls, caller_locals, label, skip)
+                if g is not None:
+                    out.extend(self.process_block(g, cls, caller_locals, label, depth + 1) if depth < 4 else g)
+                    continue
             pending = [s]
             # expand calls of this statement until none is left
             guard = 0
